@@ -163,7 +163,9 @@ def stepOp (d : DS) (op implObs : String) : DS × String × List String × List 
       let (viol, d2) := match implParsed s'.lo s'.hi with
         | some (_, o) => (invViolations o, { d1 with prevImpl := some o })
         | none => (["C14 unparsable-observation"], d1)
-      (d2, res ++ " | " ++ showState d1 s', extraViol ++ viol, tags)
+      -- the harness marks a live torrent whose in-memory info dictionary no longer hashes to its info-hash
+      let rot := if (implObs.splitOn "INFOROT").length ≥ 2 then ["C14 info-dictionary-corrupted-in-memory"] else []
+      (d2, res ++ " | " ++ showState d1 s', extraViol ++ viol ++ rot, tags)
     let implRes := (implObs.splitOn " | ").headD ""
     match name with
     | "add" =>
